@@ -9,7 +9,8 @@
 
    Operations that are legitimately not cancellable are NOT handled by loosening the rule: they
    are listed one by one in [allow_list] (function + exact operation + reason); each entry must
-   match exactly one operation of the table. *)
+   match exactly [al_count] operations of the table (1 everywhere except the two parks of
+   fillSegmentQueue), and every matched operation is checked individually. *)
 From Coq Require Import List String Ascii Bool Arith.
 From GoHls Require Import Lib.ClientLifeIR.
 Import ListNotations.
@@ -131,22 +132,23 @@ Inductive allow_class :=
 | DoneItself     (* a bare <-ctx.Done() on the pool context: it waits for the cancellation itself *)
 | NeverBlocks.   (* not a blocking operation in this program *)
 
-Record allow := { al_func : string; al_kind : opkind; al_class : allow_class; al_reason : string }.
+(* [al_count] = the exact number of operations of the table the entry must match *)
+Record allow := { al_func : string; al_kind : opkind; al_class : allow_class; al_count : nat; al_reason : string }.
 
 Definition allow_list : list allow := [
-  {| al_func := "Client.run"; al_kind := KSend "c.outErr"; al_class := RunThread;
+  {| al_func := "Client.run"; al_kind := KSend "c.outErr"; al_class := RunThread; al_count := 1;
      al_reason := "outErr has capacity 1 (make(chan error, 1) in Start), Client.run is started once (the only go statement outside the pool) and this is its only send: the buffer is empty when it is executed. Proofs/ClientLife.v: inv_send_room, c12_one_result." |};
-  {| al_func := "Client.runInner"; al_kind := KSelect [ARecv "rp.errorChan()"; ADone "c.ctx"]; al_class := RunThread;
+  {| al_func := "Client.runInner"; al_kind := KSelect [ARecv "rp.errorChan()"; ADone "c.ctx"]; al_class := RunThread; al_count := 1;
      al_reason := "the top-level wait of the client: first error of the pool, or Close (the client context). It is the operation that cancels the pool, not one that has to be woken by it. Model: RSelect with exactly these two alternatives." |};
-  {| al_func := "clientRoutinePool.close"; al_kind := KWgWait "rp.wg"; al_class := RunThread;
+  {| al_func := "clientRoutinePool.close"; al_kind := KWgWait "rp.wg"; al_class := RunThread; al_count := 1;
      al_reason := "executed after rp.ctxCancel(); returns because every pool goroutine returns once the pool context is cancelled. Proofs/ClientLife.v: c12_progress, c12_bounded (this is what c12_all_joined is about)." |};
-  {| al_func := "clientStreamDownloader.fillSegmentQueue"; al_kind := KRecvDone "ctx"; al_class := DoneItself;
-     al_reason := "after the last segment of a finished playlist the downloader parks until the pool is cancelled; enabled exactly by the cancellation (cancel_wakes, Proofs: recvdone_wakes)." |};
-  {| al_func := "clientStreamProcessorFMP4.processSegment"; al_kind := KRecvDone "ctx"; al_class := DoneItself;
+  {| al_func := "clientStreamDownloader.fillSegmentQueue"; al_kind := KRecvDone "ctx"; al_class := DoneItself; al_count := 2;
+     al_reason := "two parks, both after d.segmentQueue.push(nil): (1) the last segment of a finished playlist has just been downloaded; (2) ENDLIST appeared on a reload after the last segment had already been downloaded. The downloader waits until the pool is cancelled; each of the two operations is individually required to be woken by exactly that cancellation (allow_entry_ok: cancel_wakes; Proofs: recvdone_wakes)." |};
+  {| al_func := "clientStreamProcessorFMP4.processSegment"; al_kind := KRecvDone "ctx"; al_class := DoneItself; al_count := 1;
      al_reason := "after setEnded the processor parks until the pool is cancelled; enabled exactly by the cancellation." |};
-  {| al_func := "clientStreamProcessorMPEGTS.processSegment"; al_kind := KRecvDone "ctx"; al_class := DoneItself;
+  {| al_func := "clientStreamProcessorMPEGTS.processSegment"; al_kind := KRecvDone "ctx"; al_class := DoneItself; al_count := 1;
      al_reason := "after setEnded the processor parks until the pool is cancelled; enabled exactly by the cancellation." |};
-  {| al_func := "switchableReader.Read"; al_kind := KIoRead "r.r"; al_class := NeverBlocks;
+  {| al_func := "switchableReader.Read"; al_kind := KIoRead "r.r"; al_class := NeverBlocks; al_count := 1;
      al_reason := "the wrapped reader is only ever a bytes.Reader over a downloaded segment (both assignments in client_stream_processor_mpegts.go); an in-memory read. Not modelled; covered by the harness leak oracle." |}
 ].
 
@@ -259,7 +261,7 @@ Definition op_ok (g : gen) (o : blockop) : bool :=
 
 Definition all_cancellable (g : gen) : bool :=
   forallb (op_ok g) (g_ops g)
-  && forallb (fun a => Nat.eqb (count_matches g a) 1) allow_list
+  && forallb (fun a => Nat.eqb (count_matches g a) (al_count a)) allow_list
   && ctx_flow_ok g
   && locks_ok g
   && go_ok g
